@@ -8,15 +8,27 @@
 (* byte and the infinity sign) up to MaxLen; the harness adds seeded "one mistake away from     *)
 (* valid" mutations of valid inputs and long / deeply nested ones.                              *)
 EXTENDS Integers, Sequences, FiniteSets, TLC
-CONSTANT MaxLen
+CONSTANTS MaxLen, MaxLenK, MaxLines, MaxDepth
 \* index into the alphabet table kept by the harness (bytes cannot be written portably in TLA+ strings)
 AlphabetSize == 34
-Words == UNION {[1..n -> 1..AlphabetSize] : n \in 0..MaxLen}
+\* ... followed in the same table by the keyword tokens of the grammars behind the entry points (placeholders such as
+\* ${env.HOME} or ${project.version}, PEP 440 / Maven qualifiers, marker variables and operators, range operators, line
+\* prefixes of the text formats, newline and tab): short words over the extended alphabet that use at least one keyword
+KAlphabetSize == 84
+KWords == UNION {{w \in [1..n -> 1..KAlphabetSize] : \E i \in 1..n : w[i] > AlphabetSize} : n \in 1..MaxLenK}
+Words == UNION {[1..n -> 1..AlphabetSize] : n \in 0..MaxLen} \cup KWords
+\* Grammar-derived inputs for the two line-oriented text formats (schema universes and resolved graphs): a text is a
+\* sequence of lines, each an indentation depth and one of LineKinds line templates (node definition, labelled
+\* definition, label reference, undefined / duplicate label, node error, graph error, dependency-typed line, comment,
+\* bare name, attribute line ...; the harness holds one template table per format).
+LineKinds == 10
+Texts == UNION {[1..n -> (1..LineKinds) \X (0..MaxDepth)] : n \in 1..MaxLines}
+Inputs == [kind : {"word"}, w : Words] \cup [kind : {"text"}, w : Texts]
 Outcomes == {"value", "error"}
 \* monitor
 VARIABLES state, word
-MInit == state = "idle" /\ word = <<>>
-Call == state = "idle" /\ state' = "called" /\ word' \in Words
+MInit == state = "idle" /\ word = [kind |-> "word", w |-> <<>>]
+Call == state = "idle" /\ state' = "called" /\ word' \in Inputs
 Return == state = "called" /\ state' \in {"returned-value", "returned-error"} /\ UNCHANGED word
 MNext == Call \/ Return
 MonitorOK == state \in {"idle", "called", "returned-value", "returned-error"}
